@@ -151,8 +151,19 @@ def load_findings() -> list:
     return data.get("findings", [])
 
 
+def out_dir(kind: str) -> str:
+    """evidence/ and replays/ describe /repo itself; runs against a scratch copy
+    (VERIF_REPO set, e.g. by the seeded-change self-test) write elsewhere."""
+    alt = os.environ.get("VERIF_REPO")
+    if alt and os.path.realpath(alt) != os.path.realpath("/repo"):
+        d = os.path.join(VERIF, ".work", "alt", os.path.basename(alt.rstrip("/")), kind)
+    else:
+        d = os.path.join(VERIF, kind)
+    os.makedirs(d, exist_ok=True)
+    return d
+
+
 def write_evidence(pid, check, tier, seed, merged, wall, n_viol, extra_cov=None):
-    os.makedirs(os.path.join(VERIF, "evidence"), exist_ok=True)
     level = getattr(check, "LEVEL", "exploration")
     sigs = merged["sigs"]
     cov = {
@@ -181,7 +192,7 @@ def write_evidence(pid, check, tier, seed, merged, wall, n_viol, extra_cov=None)
         "wall_s": round(wall, 2),
         "violations": n_viol,
     }
-    path = os.path.join(VERIF, "evidence", f"{pid}.json")
+    path = os.path.join(out_dir("evidence"), f"{pid}.json")
     tmp = path + ".tmp"
     with open(tmp, "w") as f:
         json.dump(ev, f, indent=1, default=str)
@@ -280,14 +291,14 @@ def run_parent(args) -> int:
         total = merged["counters"].get(f"violations_mech_{key}", len(vs))
         lines.append(f"KNOWN-FINDING: property={pid} {key}: {f.get('what', '')} (observed {total}x, e.g. {' '.join(str(vs[0].get('detail', '')).split())[:160]})")
     if unlisted:
-        os.makedirs(os.path.join(VERIF, "replays"), exist_ok=True)
+        replay_dir = out_dir("replays")
         seen_kinds = {}
         for n, v in enumerate(unlisted):
             kind = (v.get("kind"), v.get("mech"))
             if seen_kinds.get(kind, 0) >= 3:
                 continue
             seen_kinds[kind] = seen_kinds.get(kind, 0) + 1
-            path = os.path.join(VERIF, "replays", f"{pid}-{seed}-{n}.json")
+            path = os.path.join(replay_dir, f"{pid}-{seed}-{n}.json")
             with open(path, "w") as fh:
                 json.dump({"property": pid, "tier": tier, "seed": seed, "violation": {k: x for k, x in v.items() if k != "case"}, "case": v.get("case")}, fh, indent=1, default=str)
             lines.append(f"VIOLATION property={pid} replay={path}")
